@@ -29,6 +29,7 @@ const (
 	tFmtState
 	tBuffer
 	tMode
+	tErr
 )
 
 type trCtx struct {
@@ -38,6 +39,7 @@ type trCtx struct {
 	recv    string           // receiver name ("" if none)
 	recvPtr bool
 	consts  map[string]string // package-level constants / qualified names -> Lean text
+	cints   map[string]int64  // integer constants: rendered at the type the context wants
 	ctypes  map[string]ltype
 	retN    int
 	bad     []string
@@ -50,6 +52,7 @@ type methodSig struct {
 	nret   int
 	ptr    bool
 	params []ltype
+	rets   []ltype
 }
 
 func (c *trCtx) fail(what string, n ast.Node) string {
@@ -77,6 +80,8 @@ func goTypeOf(e ast.Expr) ltype {
 			return tMode
 		case "Buffer":
 			return tBuffer
+		case "error":
+			return tErr
 		}
 	case *ast.ArrayType:
 		if id, ok := t.Elt.(*ast.Ident); ok && (id.Name == "byte" || id.Name == "uint8") && t.Len == nil {
@@ -115,6 +120,8 @@ func leanType(t ltype) string {
 		return "GoBuffer"
 	case tMode:
 		return "Int"
+	case tErr:
+		return "Unit"
 	}
 	return "Unit"
 }
@@ -174,6 +181,8 @@ func (c *trCtx) typeOfExpr(e ast.Expr) ltype {
 		return tByte
 	case *ast.SliceExpr:
 		return tBytes
+	case *ast.StarExpr:
+		return c.typeOfExpr(x.X)
 	case *ast.UnaryExpr:
 		if x.Op == token.NOT {
 			return tBool
@@ -264,12 +273,16 @@ func (c *trCtx) expr(e ast.Expr, want ltype) string {
 			if want == tBytes {
 				return "([] : List UInt8)"
 			}
+			return "()"
 		}
 		if _, ok := c.vars[x.Name]; ok {
 			return leanName(x.Name)
 		}
 		if v, ok := c.consts[x.Name]; ok {
 			return v
+		}
+		if v, ok := c.cints[x.Name]; ok {
+			return c.intConst(v, want)
 		}
 		return c.fail("identifier "+x.Name, x)
 	case *ast.SelectorExpr:
@@ -282,6 +295,9 @@ func (c *trCtx) expr(e ast.Expr, want ltype) string {
 			}
 			if v, ok := c.consts[id.Name+"."+x.Sel.Name]; ok {
 				return v
+			}
+			if v, ok := c.cints[id.Name+"."+x.Sel.Name]; ok {
+				return c.intConst(v, want)
 			}
 		}
 		return c.fail("selector "+exprText(c.fset, x), x)
@@ -331,10 +347,33 @@ func (c *trCtx) expr(e ast.Expr, want ltype) string {
 	case *ast.IndexExpr:
 		// s[i] on a constant string (m.StartS[0]) or a byte slice
 		return "(goIndex " + c.expr(x.X, tBytes) + " " + c.expr(x.Index, tInt) + ")"
+	case *ast.SliceExpr:
+		if x.Slice3 {
+			return c.fail("3-index slice", x)
+		}
+		base := c.expr(x.X, tBytes)
+		switch {
+		case x.Low == nil && x.High != nil:
+			return "(goSliceTo " + base + " " + c.expr(x.High, tInt) + ")"
+		case x.Low != nil && x.High == nil:
+			return "(goSliceFrom " + base + " " + c.expr(x.Low, tInt) + ")"
+		case x.Low != nil && x.High != nil:
+			return "(goSlice " + base + " " + c.expr(x.Low, tInt) + " " + c.expr(x.High, tInt) + ")"
+		}
+		return base
+	case *ast.StarExpr:
+		return c.expr(x.X, want)
 	case *ast.CallExpr:
 		return c.call(x, want)
 	}
 	return c.fail("expression "+exprText(c.fset, e), e)
+}
+
+func (c *trCtx) intConst(v int64, want ltype) string {
+	if want == tByte {
+		return fmt.Sprintf("(%d : UInt8)", v)
+	}
+	return fmt.Sprintf("(%d : Int)", v)
 }
 
 func leanName(n string) string {
@@ -370,6 +409,23 @@ func (c *trCtx) call(x *ast.CallExpr, want ltype) string {
 				return "(goRuneLen " + c.expr(x.Args[0], tInt) + ")"
 			case "m.RedactableBytes", "m.RedactableString":
 				return c.expr(x.Args[0], tBytes)
+			case "escape.InternalEscapeBytes":
+				return "(goInternalEscapeBytes " + c.expr(x.Args[0], tBytes) + " " + c.expr(x.Args[1], tInt) + " " + c.expr(x.Args[2], tBool) + " " + c.expr(x.Args[3], tBool) + ")"
+			}
+			// a method of the receiver's type called on a Buffer variable, used as a value:
+			// only methods that do not modify their receiver may appear inside expressions
+			if c.vars[id.Name] == tBuffer {
+				if sig, ok := c.methods[se.Sel.Name]; ok && !sig.ptr {
+					args := []string{leanName(id.Name)}
+					for i, a := range x.Args {
+						t := tUnknown
+						if i < len(sig.params) {
+							t = sig.params[i]
+						}
+						args = append(args, c.expr(a, t))
+					}
+					return "(" + se.Sel.Name + " " + strings.Join(args, " ") + ")"
+				}
 			}
 			if c.vars[id.Name] == tFmtState {
 				switch se.Sel.Name {
@@ -382,6 +438,10 @@ func (c *trCtx) call(x *ast.CallExpr, want ltype) string {
 			if c.vars[id.Name] == tBytes && se.Sel.Name == "String" && len(x.Args) == 0 {
 				return leanName(id.Name)
 			}
+		}
+		// m.RedactableString(b.buf).StripMarkers()
+		if se.Sel.Name == "StripMarkers" && len(x.Args) == 0 {
+			return "(goStripMarkers " + c.expr(se.X, tBytes) + ")"
 		}
 	}
 	return c.fail("call "+exprText(c.fset, x.Fun), x)
@@ -461,9 +521,134 @@ func (c *trCtx) retTuple(rs []ast.Expr, fd *ast.FuncDecl) string {
 }
 
 func (c *trCtx) stmts(w *lw, list []ast.Stmt, fd *ast.FuncDecl) {
-	for _, s := range list {
-		c.stmt(w, s, fd)
+	for i := 0; i < len(list); i++ {
+		if i+1 < len(list) {
+			if v, recv, n, ok := c.growIdiom(list[i], list[i+1]); ok {
+				// m, ok := b.tryGrowByReslice(N); if !ok { m = b.grow(N) }
+				// == extend b.buf by N bytes, m = the old length (capacity management is not translated)
+				c.assign(w, v, tInt, "(goLen "+leanName(recv)+".buf)", true)
+				w.line("%s := { %s with buf := goExtend %s.buf %s }", leanName(recv), leanName(recv), leanName(recv), n)
+				i++
+				continue
+			}
+		}
+		c.stmt(w, list[i], fd)
 	}
+}
+
+// growIdiom recognises `m, ok := b.tryGrowByReslice(N)` followed by `if !ok { m = b.grow(N) }`.
+func (c *trCtx) growIdiom(s1, s2 ast.Stmt) (v, recv, n string, ok bool) {
+	as, ok1 := s1.(*ast.AssignStmt)
+	is, ok2 := s2.(*ast.IfStmt)
+	if !ok1 || !ok2 || len(as.Lhs) != 2 || len(as.Rhs) != 1 || as.Tok != token.DEFINE {
+		return
+	}
+	call, okc := as.Rhs[0].(*ast.CallExpr)
+	if !okc || len(call.Args) != 1 {
+		return
+	}
+	se, oks := call.Fun.(*ast.SelectorExpr)
+	if !oks || se.Sel.Name != "tryGrowByReslice" {
+		return
+	}
+	rid, okr := se.X.(*ast.Ident)
+	mid, okm := as.Lhs[0].(*ast.Ident)
+	oid, oko := as.Lhs[1].(*ast.Ident)
+	if !okr || !okm || !oko || c.vars[rid.Name] != tBuffer {
+		return
+	}
+	// if !ok { m = b.grow(N) }
+	un, oku := is.Cond.(*ast.UnaryExpr)
+	if !oku || un.Op != token.NOT || is.Init != nil || is.Else != nil || len(is.Body.List) != 1 {
+		return
+	}
+	if cid, okk := un.X.(*ast.Ident); !okk || cid.Name != oid.Name {
+		return
+	}
+	as2, oka := is.Body.List[0].(*ast.AssignStmt)
+	if !oka || as2.Tok != token.ASSIGN || len(as2.Lhs) != 1 || len(as2.Rhs) != 1 {
+		return
+	}
+	if l2, okl := as2.Lhs[0].(*ast.Ident); !okl || l2.Name != mid.Name {
+		return
+	}
+	call2, okc2 := as2.Rhs[0].(*ast.CallExpr)
+	if !okc2 || len(call2.Args) != 1 {
+		return
+	}
+	se2, oks2 := call2.Fun.(*ast.SelectorExpr)
+	if !oks2 || se2.Sel.Name != "grow" {
+		return
+	}
+	if r2, okr2 := se2.X.(*ast.Ident); !okr2 || r2.Name != rid.Name {
+		return
+	}
+	if exprText(c.fset, call.Args[0]) != exprText(c.fset, call2.Args[0]) {
+		return
+	}
+	return mid.Name, rid.Name, c.expr(call.Args[0], tInt), true
+}
+
+// copyCall recognises copy(x.buf[m:], src) / utf8.EncodeRune(x.buf[m:], r): (receiver, offset, source bytes).
+func (c *trCtx) copyCall(e ast.Expr) (recv, off, src string, ok bool) {
+	call, okc := e.(*ast.CallExpr)
+	if !okc || len(call.Args) != 2 {
+		return
+	}
+	isCopy, isEnc := false, false
+	if id, oki := call.Fun.(*ast.Ident); oki && id.Name == "copy" {
+		isCopy = true
+	}
+	if se, oks := call.Fun.(*ast.SelectorExpr); oks {
+		if id, oki := se.X.(*ast.Ident); oki && id.Name == "utf8" && se.Sel.Name == "EncodeRune" {
+			isEnc = true
+		}
+	}
+	if !isCopy && !isEnc {
+		return
+	}
+	sl, oksl := call.Args[0].(*ast.SliceExpr)
+	if !oksl || sl.Low == nil || sl.High != nil {
+		return
+	}
+	fs, okf := sl.X.(*ast.SelectorExpr)
+	if !okf || fs.Sel.Name != "buf" {
+		return
+	}
+	rid, okr := fs.X.(*ast.Ident)
+	if !okr || c.vars[rid.Name] != tBuffer {
+		return
+	}
+	if isCopy {
+		return rid.Name, c.expr(sl.Low, tInt), c.expr(call.Args[1], tBytes), true
+	}
+	return rid.Name, c.expr(sl.Low, tInt), "(goEncodeRune " + c.expr(call.Args[1], tInt) + ")", true
+}
+
+// methodCall: x.M(args) where x is a Buffer variable and M a translated method with a pointer
+// receiver: the Lean function returns the updated buffer (and the results).
+func (c *trCtx) methodCall(call *ast.CallExpr) (recv string, lean string, sig methodSig, ok bool) {
+	se, oks := call.Fun.(*ast.SelectorExpr)
+	if !oks {
+		return
+	}
+	id, oki := se.X.(*ast.Ident)
+	if !oki || c.vars[id.Name] != tBuffer {
+		return
+	}
+	sig, okm := c.methods[se.Sel.Name]
+	if !okm {
+		return
+	}
+	args := []string{leanName(id.Name)}
+	for i, a := range call.Args {
+		t := tUnknown
+		if i < len(sig.params) {
+			t = sig.params[i]
+		}
+		args = append(args, c.expr(a, t))
+	}
+	return id.Name, "(" + se.Sel.Name + " " + strings.Join(args, " ") + ")", sig, true
 }
 
 func (c *trCtx) stmt(w *lw, s ast.Stmt, fd *ast.FuncDecl) {
@@ -509,6 +694,30 @@ func (c *trCtx) stmt(w *lw, s ast.Stmt, fd *ast.FuncDecl) {
 			return
 		}
 		if len(x.Rhs) == 1 {
+			if call, okc := x.Rhs[0].(*ast.CallExpr); okc {
+				if recv, lean, sig, ok := c.methodCall(call); ok && sig.ptr && sig.nret == len(x.Lhs) {
+					tmp := fmt.Sprintf("t_%s_%d", recv, c.fset.Position(x.Pos()).Line)
+					w.line("let %s := %s", tmp, lean)
+					w.line("%s := %s.1", leanName(recv), tmp)
+					for i, l := range x.Lhs {
+						id, okid := l.(*ast.Ident)
+						if !okid {
+							w.line("%s", c.fail("tuple assignment target", x))
+							return
+						}
+						proj := tmp + ".2"
+						if sig.nret > 1 {
+							proj = fmt.Sprintf("%s.2.%d", tmp, i+1)
+						}
+						t := tUnknown
+						if i < len(sig.rets) {
+							t = sig.rets[i]
+						}
+						c.assign(w, id.Name, t, proj, define)
+					}
+					return
+				}
+			}
 			// tuple-valued call
 			rhs := c.expr(x.Rhs[0], tUnknown)
 			var names []string
@@ -547,6 +756,21 @@ func (c *trCtx) stmt(w *lw, s ast.Stmt, fd *ast.FuncDecl) {
 					return
 				}
 			}
+		}
+		if recv, off, src, ok := c.copyCall(call); ok {
+			w.line("%s := { %s with buf := goCopyAt %s.buf %s %s }", leanName(recv), leanName(recv), leanName(recv), off, src)
+			return
+		}
+		if recv, lean, sig, ok := c.methodCall(call); ok {
+			if !sig.ptr {
+				return // a value-receiver method called for nothing
+			}
+			if sig.nret == 0 {
+				w.line("%s := %s", leanName(recv), lean)
+			} else {
+				w.line("%s := %s.1", leanName(recv), lean)
+			}
+			return
 		}
 		w.line("%s", c.fail("call statement "+exprText(c.fset, call.Fun), x))
 	case *ast.IfStmt:
@@ -620,6 +844,17 @@ func (c *trCtx) stmt(w *lw, s ast.Stmt, fd *ast.FuncDecl) {
 			w.line("return %s", c.bareReturn())
 			return
 		}
+		if recv, off, src, ok := c.copyCall(x.Results[0]); ok {
+			// return copy(b.buf[m:], p), nil
+			w.line("let n_copied := goCopyN %s.buf %s %s", leanName(recv), off, src)
+			w.line("%s := { %s with buf := goCopyAt %s.buf %s %s }", leanName(recv), leanName(recv), leanName(recv), off, src)
+			rest := []string{"n_copied"}
+			for _, r := range x.Results[1:] {
+				rest = append(rest, c.expr(r, tErr))
+			}
+			w.line("return %s", c.wrapRet("("+strings.Join(rest, ", ")+")"))
+			return
+		}
 		w.line("return %s", c.wrapRet(c.retTuple(x.Results, fd)))
 	case *ast.BlockStmt:
 		c.stmts(w, x.List, fd)
@@ -645,7 +880,7 @@ func (c *trCtx) bareReturn() string {
 // wrapRet: a method with a pointer receiver returns the updated receiver too.
 func (c *trCtx) wrapRet(r string) string {
 	if c.recv != "" && c.recvPtr {
-		if r == "()" {
+		if c.retN == 0 {
 			return leanName(c.recv)
 		}
 		return "(" + leanName(c.recv) + ", " + r + ")"
@@ -654,7 +889,31 @@ func (c *trCtx) wrapRet(r string) string {
 }
 
 func (c *trCtx) assign1(w *lw, lhs, rhs ast.Expr, define bool) {
+	if recv, off, src, ok := c.copyCall(rhs); ok {
+		if id, oki := lhs.(*ast.Ident); oki && id.Name == "_" {
+			w.line("%s := { %s with buf := goCopyAt %s.buf %s %s }", leanName(recv), leanName(recv), leanName(recv), off, src)
+			return
+		}
+	}
 	switch l := lhs.(type) {
+	case *ast.SelectorExpr:
+		if id, ok := l.X.(*ast.Ident); ok && c.vars[id.Name] == tBuffer {
+			ft := c.typeOfExpr(l)
+			switch l.Sel.Name {
+			case "buf", "validUntil", "mode", "markerOpen":
+				w.line("%s := { %s with %s := %s }", leanName(id.Name), leanName(id.Name), l.Sel.Name, c.expr(rhs, ft))
+				return
+			}
+		}
+		w.line("%s", c.fail("assignment target "+exprText(c.fset, lhs), lhs))
+	case *ast.IndexExpr:
+		if fs, ok := l.X.(*ast.SelectorExpr); ok && fs.Sel.Name == "buf" {
+			if id, ok := fs.X.(*ast.Ident); ok && c.vars[id.Name] == tBuffer {
+				w.line("%s := { %s with buf := goSetAt %s.buf %s %s }", leanName(id.Name), leanName(id.Name), leanName(id.Name), c.expr(l.Index, tInt), c.expr(rhs, tByte))
+				return
+			}
+		}
+		w.line("%s", c.fail("assignment target "+exprText(c.fset, lhs), lhs))
 	case *ast.Ident:
 		t := c.typeOfExpr(rhs)
 		if !define {
@@ -669,8 +928,8 @@ func (c *trCtx) assign1(w *lw, lhs, rhs ast.Expr, define bool) {
 }
 
 // translateFunc renders one function as a Lean definition.
-func translateFunc(fset *token.FileSet, fd *ast.FuncDecl, leanDefName string, consts map[string]string, ctypes map[string]ltype) (string, []string) {
-	c := &trCtx{fset: fset, vars: map[string]ltype{}, decl: map[string]bool{}, consts: consts, ctypes: ctypes}
+func translateFunc(fset *token.FileSet, fd *ast.FuncDecl, leanDefName string, consts map[string]string, cints map[string]int64, ctypes map[string]ltype, methods map[string]methodSig) (string, []string) {
+	c := &trCtx{fset: fset, vars: map[string]ltype{}, decl: map[string]bool{}, consts: consts, cints: cints, ctypes: ctypes, methods: methods}
 	var params []string
 	if fd.Recv != nil && len(fd.Recv.List) == 1 && len(fd.Recv.List[0].Names) == 1 {
 		c.recv = fd.Recv.List[0].Names[0].Name
@@ -701,6 +960,7 @@ func translateFunc(fset *token.FileSet, fd *ast.FuncDecl, leanDefName string, co
 		}
 	}
 	ret := "Unit"
+	c.retN = len(rets)
 	if len(rets) > 0 {
 		ret = strings.Join(rets, " × ")
 	}
